@@ -88,6 +88,8 @@ pub struct ExecOut {
     pub spans: Vec<Option<(usize, usize)>>,
     pub labels: Vec<Label>,
     pub steps: usize,
+    /// store content at the moment a `Flush` call of the op set returned
+    pub flush_snapshot: Option<Content>,
 }
 
 /// Runs `ops` as concurrent tasks on `coll` under the chooser's schedule.
@@ -108,7 +110,32 @@ pub fn run_ops(live: &Live, coll: &Arc<Collection>, ops: &[Op], chooser: &mut Ch
             res.borrow_mut()[i] = Some(out);
         });
     }
-    let end = sched.run(chooser, max_steps);
+    // like Sched::run, but snapshots the store at the moment a flush call returns
+    let flush_task = ops.iter().position(|o| matches!(o, Op::Flush));
+    let mut flush_snapshot: Option<Content> = None;
+    let end = loop {
+        if sched.steps.len() >= max_steps {
+            break RunEnd::StepLimit;
+        }
+        let (opts, costs) = sched.options();
+        if opts.is_empty() {
+            if sched.all_done() {
+                break RunEnd::AllDone;
+            }
+            break RunEnd::Deadlock(
+                (0..ops.len())
+                    .filter(|t| sched.state(*t) == vcore::step::TaskState::Suspended)
+                    .map(|t| sched.name(t).to_string())
+                    .collect(),
+            );
+        }
+        let pick = if opts.len() == 1 { 0 } else { chooser.choose(&costs) };
+        let t = opts[pick];
+        let done = sched.step(t);
+        if done && Some(t) == flush_task && flush_snapshot.is_none() {
+            flush_snapshot = Some(ctlstore::snapshot(live.cs.inner()));
+        }
+    };
     let mut spans: Vec<Option<(usize, usize)>> = vec![None; ops.len()];
     for (s, t) in sched.steps.iter().enumerate() {
         spans[*t] = Some(match spans[*t] {
@@ -128,6 +155,7 @@ pub fn run_ops(live: &Live, coll: &Arc<Collection>, ops: &[Op], chooser: &mut Ch
         spans,
         labels: live.ctl.labels(),
         steps,
+        flush_snapshot,
     }
 }
 
@@ -215,4 +243,79 @@ pub fn linearize(live: &Live, coll: &Collection, idx: Idx, start: &SeqModel, ops
 /// Canonical form of a label sequence for the determinism self-check.
 pub fn canon_labels(labels: &[Label]) -> Vec<String> {
     labels.iter().map(|l| format!("{}:{}:{}", l.task, l.op, l.path)).collect()
+}
+
+
+/// "What a concurrent flush persisted is the state after some prefix": the
+/// store content captured when the flush call returned is recovered by a
+/// fresh process; every document must then show an image it has at some
+/// prefix of the accepted order that contains every call on that document
+/// which had returned before the flush began (calls still in flight at the
+/// flush are all-or-nothing), and the recovered indexes must agree with the
+/// recovered documents.
+pub fn check_flush_snapshot(idx: Idx, start: &SeqModel, ops: &[Op], out: &ExecOut, order: &[usize]) -> Vec<(String, String)> {
+    use crate::crash::{self, Backend, Expectation};
+    let Some(content) = &out.flush_snapshot else {
+        return vec![];
+    };
+    let Some(ft) = ops.iter().position(|o| matches!(o, Op::Flush)) else {
+        return vec![];
+    };
+    let Some(fspan) = out.spans[ft] else {
+        return vec![];
+    };
+    // model states along the accepted order
+    let mut models = vec![start.clone()];
+    let mut m = start.clone();
+    for &i in order {
+        if let Some(o) = &out.outcomes[i] {
+            m.apply(&ops[i], o);
+        }
+        models.push(m.clone());
+    }
+    let mut ids: std::collections::BTreeSet<u64> = std::collections::BTreeSet::new();
+    for mm in &models {
+        ids.extend(mm.docs.docs.keys().copied());
+    }
+    let mut images = std::collections::BTreeMap::new();
+    for id in ids {
+        // first prefix length that contains every call on `id` that returned before the flush began
+        let mut min_prefix = 0;
+        for (pos, &i) in order.iter().enumerate() {
+            let touches = match (&ops[i], &out.outcomes[i]) {
+                (Op::Add(_), Some(Outcome::Id(x))) => *x == id,
+                (o, _) => doc_of(o) == Some(id),
+            };
+            if touches && out.spans[i].map(|s| s.1 < fspan.0).unwrap_or(false) {
+                min_prefix = pos + 1;
+            }
+        }
+        let mut c: Vec<Option<crate::fixture::VDoc>> = Vec::new();
+        for mm in &models[min_prefix..] {
+            let img = mm.docs.docs.get(&id).cloned();
+            if !c.contains(&img) {
+                c.push(img);
+            }
+        }
+        images.insert(id, c);
+    }
+    let exp = Expectation {
+        images,
+        want_idx: idx,
+        had_idx: idx,
+        allow_remedy: false,
+        flushed_ids: start.flushed_ids.clone(),
+        in_flight: Some("calls overlapping the flush".into()),
+    };
+    let mut problems = Vec::new();
+    match util::block_on(crash::recover(content, &exp, Backend::Mem)) {
+        Ok(rec) => {
+            let (ps, _) = util::block_on(crash::check_state(&rec.fx, &exp));
+            for (sig, msg) in ps {
+                problems.push((format!("flush-snapshot|{sig}"), format!("state persisted when the concurrent flush returned: {msg}")));
+            }
+        }
+        Err(e) => problems.push(("flush-snapshot|recover".into(), format!("state persisted when the concurrent flush returned does not reopen: {e}"))),
+    }
+    problems
 }
